@@ -66,6 +66,21 @@ def gen(rng, tier):
         else:
             yield Case("ev1wallet", ["priv", hx(k if i % 19 else bytes(32)), ch, ad], "ev1-priv")
         yield Case("ev2wallet", [("std", "segwit")[i % 2], hx(rand_seed(rng)), ch, ad], "ev2")
+    # output-dependent: Electrum v1 master keys whose uncompressed public key has an x (or y) coordinate starting with 0x04 (the SEC1 prefix
+    # value), 0x00 or 0xff — the bytes hashed into every child's sequence value; found with coincurve directly
+    from coincurve import PublicKey as _CPub
+    need = {("x", 4), ("x", 0), ("y", 4), ("x", 255)}
+    for j in range(40000):
+        if not need or (tier == "quick" and ("x", 4) not in need and len(need) <= 2):
+            break
+        k = rand_priv(rng, "secp256k1")
+        unc = _CPub.from_valid_secret(k).format(compressed=False)
+        tag = ("x", unc[1]) if ("x", unc[1]) in need else ("y", unc[33]) if ("y", unc[33]) in need else None
+        if tag:
+            need.discard(tag)
+            for ch, ad in ((0, 0), (1, 5)):
+                yield Case("ev1wallet", ["priv", hx(k), ch, ad], "ev1-master-pub-%s-starts-%02x" % tag)
+                yield Case("ev1wallet", ["pub", hx(_CPub.from_valid_secret(k).format(compressed=True)), ch, ad], "ev1-master-pub-%s-starts-%02x" % tag)
     pws = ["", "correct horse battery staple", "pässwörd", "😀", "a\x00b", "The quick brown fox"]
     for i in range(12 if tier == "quick" else 300):
         pw = pws[i % len(pws)] + (str(i) if i >= len(pws) else "")
@@ -96,6 +111,24 @@ def relations(rng, tier, rpt):
         bad.append({"property": "C20", "entry_point": what, "request_lines": [], "relation": what, "input": inp,
                     "impl_output": got, "model_output": want, "no_failing_input": False})
 
+    # a wallet whose master object is converted to public-only BEFORE its first use still answers every public question like a fresh wallet,
+    # and refuses the private ones (for both Electrum v2 classes and the v1 class built from a Bip32-free key)
+    from bip_utils import Bip32Slip10Secp256k1, Bip32KeyError
+    for i, cls in enumerate((ElectrumV2Standard, ElectrumV2Segwit) * (1 if tier == "quick" else 10)):
+        sd = rand_seed(rng)
+        ref = cls(Bip32Slip10Secp256k1.FromSeed(sd))
+        want = (ref.GetPublicKey(0, 3).RawCompressed().ToHex(), ref.GetAddress(1, 2), ref.MasterPublicKey().RawCompressed().ToHex())
+        master = Bip32Slip10Secp256k1.FromSeed(sd)
+        w = cls(master)
+        master.ConvertToPublic()
+        n += 1
+        got = opt(lambda: (w.GetPublicKey(0, 3).RawCompressed().ToHex(), w.GetAddress(1, 2), w.MasterPublicKey().RawCompressed().ToHex()))
+        if got != want:
+            rep("%s built from a private master that is converted to public-only before the first call does not answer like a fresh wallet" % cls.__name__,
+                sd.hex(), str(got), str(want))
+        p = opt(lambda: w.GetPrivateKey(0, 3).Raw().ToHex())
+        if p != "!Key":
+            rep("%s: private key handed out (or wrong error) after the master was converted to public-only before the first call" % cls.__name__, sd.hex(), str(p), "!Key")
     # one wallet object asked for many (change, index) pairs, incl. the same index under both changes and repeated pairs:
     # every answer equals the one of a fresh wallet asked only for that pair
     for i in range(6 if tier == "quick" else 120):
